@@ -46,6 +46,16 @@ def ref(name, ts, vals, r):
         return ("float", float(x))
     a, b = number(ts[0], vals[0], r), number(ts[1], vals[1], r)
     ra, rb = a * S, b * S                  # representations (integers)
+    if name == "pow":
+        n = int(vals[1])
+        if ts != "Fi" or n < 0:
+            return refsem.RAISES
+        if n == 0:
+            return ("num", Fraction(1))    # x ** 0 == 1.0
+        rep = ra
+        for _ in range(n - 1):
+            rep = math.floor(ra * rep / S)
+        return ("num", Fraction(rep, S))
     if name == "add":
         return ("num", a + b)
     if name == "sub":
@@ -75,6 +85,9 @@ def in_core(name, ts, vals, r, b):
         return True
     if name == "abs":
         return abs(number(ts[0], vals[0], r) * S) < lim // 2
+    if name == "pow":
+        x = number(ts[0], vals[0], r) * S
+        return ts == "Fi" and 0 <= int(vals[1]) <= 4 and abs(x) ** max(1, int(vals[1])) < lim * S ** max(0, int(vals[1]) - 1) // 4
     if "B" in ts and name not in ("add", "sub", "mul"):
         return False
     x, y = number(ts[0], vals[0], r) * S, number(ts[1], vals[1], r) * S
@@ -164,8 +177,8 @@ def _judge(cfg, name, args, variant):
         ok = len(nums) == len(want) and all(x is not None for x in nums)
         if ok:
             for x, w in zip(nums, want):
-                # compare representations modulo p
-                if ((x - Fraction(w)) * (1 << r)).denominator != 1 or int((x - Fraction(w)) * (1 << r)) % p:
+                # the representation is the integer itself (reading back divides it by 2^r), not a residue modulo p
+                if x != Fraction(w):
                     ok = False
     if not ok:
         return ("wrong-value", "%s%r on %s (resolution %d): returned %r (types %s), exact scaled-integer arithmetic gives %s" % (
@@ -183,6 +196,7 @@ def pairs():
                     out.append((name, ta + tb))
     for name in UN:
         out.append((name, "F"))
+    out.append(("pow", "Fi"))        # fixed point ** constant integer: repeated product (x * x**(n-1)), each product floored
     return out
 
 
